@@ -40,6 +40,10 @@ def builder_signature(F, b):
 
         def role(t):
             def f(n):
+                # the item of a pop that is known to have yielded one: a pattern payload, `unwrap()` or `expect(..)` alike
+                if n and n[0] == 'call' and str(n[1]).endswith(('Option::<T>::expect', 'Option::<T>::unwrap', 'Option::<T>::unwrap_unchecked')) and n[2] \
+                        and isinstance(n[2][0], tuple) and n[2][0] and n[2][0][0] == 'call' and str(n[2][0][1]).endswith('BinaryHeap::<T, A>::pop'):
+                    return ('payload', n[2][0], 'Some', '0')
                 if n == first:
                     return ('POP0',)
                 if n == second:
